@@ -75,6 +75,8 @@ class World:
             env[n] = v
         if a.vararg:
             env[a.vararg.arg] = list(args[len(pos):])
+        if a.kwarg:
+            env.setdefault(a.kwarg.arg, {})
         for k, v in (kwargs or {}).items():
             if k in pos or k in [x.arg for x in a.kwonlyargs]:
                 env[k] = v
@@ -101,12 +103,18 @@ class World:
                 if any(A.dotted(d) == "staticmethod" for d in m.node.decorator_list) and mname not in ext:
                     ext[mname] = (lambda a, k, m=m: self.call_func(m, a, k))
         mnames = {m for cls in self.classes.values() for m in self.methods_of(cls)}
+        for fm in getattr(self, "foreign", {}).values():
+            mnames |= set(fm)
         for m in mnames:
             base_m = self.base.get("." + m)
 
             def disp(recv, a, k, m=m, base_m=base_m):
                 if isinstance(recv, Instance) and m in self.methods_of(recv.cls):
                     return self.call_method(recv, m, a, k)
+                if isinstance(recv, Instance):
+                    ff = self.foreign_method(recv.cls, m)
+                    if ff is not None:
+                        return ff(recv, list(a), k or {})
                 if base_m is not None:
                     return base_m(recv, a, k)
                 raise NotHandled()
@@ -115,8 +123,60 @@ class World:
         ext["__iter__"] = self.iterate
         ext["__call__"] = self.call_instance
         ext["__super__"] = self.call_super
+        ext["__getattr__"] = self.get_property
+        ext["__getitem__"] = self.get_item
+        ext["__bool__"] = self.truth
         self.ext = ext
         return ext
+
+    # ---- foreign (non-repo) base classes: name -> {method: python callable(inst, args, kwargs)}
+    def add_foreign_base(self, name, methods):
+        if not hasattr(self, "foreign"):
+            self.foreign = {}
+        self.foreign[name] = methods
+        self.ext = None
+        return self
+
+    def foreign_method(self, cls, mname, _seen=None):
+        _seen = _seen or set()
+        for bname in cls.base_names():
+            short = (bname or "").split(".")[-1]
+            if short in getattr(self, "foreign", {}) and mname in self.foreign[short]:
+                return self.foreign[short][mname]
+            b = self.classes.get(short)
+            if b is not None and b.name not in _seen:
+                f = self.foreign_method(b, mname, _seen | {cls.name})
+                if f is not None:
+                    return f
+        return None
+
+    def get_property(self, v, attr):
+        if not isinstance(v, Instance):
+            raise NotHandled()
+        m = self.methods_of(v.cls).get(attr)
+        if m is not None and any(A.dotted(d) in ("property", "functools.cached_property", "cached_property") for d in m.node.decorator_list):
+            return self.call_method(v, attr, [], {})
+        if m is not None:
+            return PyFunc(lambda a, k: self.call_method(v, attr, a, k), f"{v.cls.name}.{attr}")
+        raise NotHandled()
+
+    def get_item(self, v, key):
+        if isinstance(v, Instance) and "__getitem__" in self.methods_of(v.cls):
+            return self.call_method(v, "__getitem__", [key], {})
+        raise NotHandled()
+
+    def truth(self, v):
+        if not isinstance(v, Instance):
+            raise NotHandled()
+        if "__bool__" in self.methods_of(v.cls):
+            return self.call_method(v, "__bool__", [], {})
+        f = self.foreign_method(v.cls, "__bool__")
+        if f is not None:
+            return f(v, [], {})
+        if "__len__" in self.methods_of(v.cls):
+            from .alg import to_poly as _tp
+            return _tp(self.call_method(v, "__len__", [], {})).const_value() != 0
+        return True
 
     def call_super(self, cls_name, mname, inst, args, kwargs):
         cls = self.classes.get(cls_name)
@@ -131,6 +191,9 @@ class World:
                 env["self"] = inst
                 it = Interp(env, inst.attrs, self.region, methods={n: mm.node for n, mm in self.methods_of(b).items()}, cls_name=b.name, externals=self.externals())
                 return it.run(A.strip_docstring(m.node.body))
+        f = self.foreign_method(cls, mname)
+        if f is not None:
+            return f(inst, list(args), kwargs or {})
         raise Undecided(f"super().{mname}: no registered base class defines it")
 
     def call_instance(self, v, args, kwargs):
